@@ -611,6 +611,29 @@ var profiles = map[string]func(b *bias, g *gen){
 		b.lifetimes = []int64{0, 1, 2, 60}
 		b.faultFree, b.storeFaults = false, 1
 	},
+	"race": func(b *bias, g *gen) {
+		// C16 (c): pairwise-parallel release under the race detector
+		b.clients, b.ops = [2]int{2, 4}, [2]int{2, 6}
+		b.pSWR, b.pPoison, b.pUnsafe, b.pVary, b.pValidator = 70, 80, 8, 25, 90
+		b.lifetimes = []int64{0, 1, 2}
+		b.freshKinds = []int{9, 1, 0, 0}
+		b.stallPct = 15
+		b.resources = [2]int{1, 2}
+		b.backends = []string{"mem", "mem", "fs"}
+		b.pair = true
+		b.pLatency = 60
+	},
+	"placement": func(b *bias, g *gen) {
+		// short fault-free base histories for fault enumeration (C10)
+		b.ops = [2]int{2, 8}
+		b.pSWR, b.pSIE, b.pValidator, b.pVary = 35, 25, 85, 25
+		b.lifetimes = []int64{0, 1, 2, 5, 60}
+		b.pUnsafe, b.pReqCC = 8, 25
+		b.loggers = []string{"discard"}
+		b.backends = []string{"mem"}
+		b.sched = []string{"fifo", "random"}
+		b.pStoreLat = 0
+	},
 	"sie": func(b *bias, g *gen) {
 		b.pSIE, b.pErrStatus, b.pNetFault, b.pValidator = 60, 35, 20, 90
 		b.lifetimes = []int64{1, 2, 5}
@@ -621,10 +644,14 @@ var profiles = map[string]func(b *bias, g *gen){
 	},
 }
 
+func newRand(seed uint64) *rand.Rand { return rand.New(rand.NewPCG(seed, 0x5eed)) }
+
 func Gen(profile string, seed uint64, thorough bool) *Scenario {
 	switch profile {
 	case "map", "atomic", "crypt":
 		return genSsim(profile, seed, thorough)
+	case "growth":
+		return genGrowth(seed, thorough)
 	}
 	g := &gen{Rand: rand.New(rand.NewPCG(seed, 0x5eed))}
 	b := defaultBias()
